@@ -393,6 +393,9 @@ def w_posterior(case):
                          draw_first=case.get('draw_first', False),
                          longer=case.get('longer'))
     ppm = chi.PosteriorPredictiveModel(pred_model(1), ds)
+    if case.get('prev') is not None:
+        # the same object was asked for another individual before
+        ppm.sample(list(times), n_samples=2, individual=case['prev'], seed=1)
     res = []
     for zval in (0.0, 1.0):
         def base(stream, index, kind, n=None, zval=zval):
@@ -613,6 +616,100 @@ def w_reduced_source(case):
             'violations': viol}
 
 
+def w_fixed_error(case):
+    """A predictive model with fixed mechanistic / error parameters samples the
+    process at the substituted vector: mechanistic output + (sigma_base + sigma_rel
+    * output) * noise under a constant-noise script."""
+    viol = []
+    pm = chi.PredictiveModel(RevealModel(1), [
+        chi.ConstantAndMultiplicativeGaussianErrorModel()])
+    full = {'q0': 1.7, 'Sigma base': 0.3, 'Sigma rel.': 0.2}
+    fixed = {}
+    for step in case['steps']:
+        pm.fix_parameters(dict(step))
+        for k_, v_ in step:
+            if v_ is None:
+                fixed.pop(k_, None)
+            else:
+                fixed[k_] = v_
+    free = [n_ for n_ in full if n_ not in fixed]
+    if list(pm.get_parameter_names()) != free:
+        viol.append({'sub': 'fixed_names', 'message': 'predictive model does not '
+                     'list the free parameters after %s' % case['steps'],
+                     'expected': free, 'observed': list(pm.get_parameter_names()),
+                     'behaviour': 'fixed_error'})
+        return {'transitions': 2, 'outcome': 'names', 'violations': viol}
+    v = dict(full)
+    v.update(fixed)
+    times = [0.5, 1.25, 2.0]
+    x = [full[n_] for n_ in free]
+    res = []
+    for zval in (0.0, 1.0):
+        def base(stream, index, kind, n=None, zval=zval):
+            return zval if kind == 'z' else (0.5 if kind == 'u' else 0)
+        with Seam(Script(base=base)):
+            res.append(np.asarray(pm.sample(x, times, n_samples=2, seed=3,
+                                            return_df=False), dtype=float))
+    ybar = v['q0'] * tf(times)
+    e0 = np.repeat(ybar[np.newaxis, :, np.newaxis], 2, axis=2)
+    e1 = e0 + (v['Sigma base'] + v['Sigma rel.'] * e0)
+    if res[0].shape != e0.shape or not tol.allclose(res[0], e0) or \
+            not tol.allclose(res[1], e1):
+        viol.append({'sub': 'fixed_error', 'message': 'samples of a predictive model '
+                     'with fixed parameters %s are not the process at the '
+                     'substituted parameter vector' % sorted(fixed),
+                     'steps': case['steps'], 'expected': [e0, e1],
+                     'observed': res, 'behaviour': 'fixed_error'})
+    return {'transitions': len(case['steps']) + 2,
+            'outcome': key_of([case['steps'], tol.rnd(res[1])]), 'violations': viol}
+
+
+def w_sbml_outputs(case):
+    """PredictiveModel around the two-output library model with `outputs=` given in
+    either order, the model's own outputs set beforehand or not: row j of a sample
+    is output j of the list, with error model j."""
+    viol = []
+    m = chi.library.ModelLibrary().erlotinib_tumour_growth_inhibition_model()
+    both = ['central.drug_concentration', 'global.tumour_volume']
+    if case['preset'] is not None:
+        m.set_outputs([both[i] for i in case['preset']])
+    outs = [both[i] for i in case['order']]
+    ems = [[chi.GaussianErrorModel(), chi.LogNormalErrorModel()][i]
+           for i in case['order']]
+    pm = chi.PredictiveModel(m, ems, outputs=list(outs))
+    if list(pm.get_output_names()) != outs:
+        viol.append({'sub': 'sbml_output_names', 'message': 'output names of the '
+                     'predictive model are not the requested list',
+                     'expected': outs, 'observed': list(pm.get_output_names()),
+                     'behaviour': 'sbml_outputs'})
+    n = pm.n_parameters()
+    names = list(pm.get_parameter_names())
+    theta = [0.3 + 0.17 * k_ for k_ in range(n)]
+    times = [0.5, 1.5, 2.5]
+    with Seam(Script(base=zero_z)):
+        A = np.asarray(pm.sample(theta, times, n_samples=1, seed=3,
+                                 return_df=False), dtype=float)[:, :, 0]
+    ref = chi.library.ModelLibrary().erlotinib_tumour_growth_inhibition_model()
+    ref.set_outputs(list(outs))
+    n_mech = ref.n_parameters()
+    y = np.asarray(ref.simulate(theta[:n_mech], times), dtype=float)
+    # zero noise: Gaussian rows are the output itself, log-normal rows the output
+    # times exp(-sigma^2 / 2) (documented mean-preserving parametrisation)
+    exp = y.copy()
+    for j, i in enumerate(case['order']):
+        if i == 1:
+            sig = theta[n_mech + j]
+            exp[j] = y[j] * np.exp(-sig ** 2 / 2)
+    if A.shape != exp.shape or not tol.allclose(A, exp, tol.ODE_REL, tol.ODE_ABS):
+        viol.append({'sub': 'sbml_outputs', 'message': 'rows of the sample are not '
+                     'the requested outputs in the requested order with their own '
+                     'error models (outputs=%s, model preset %s)'
+                     % (case['order'], case['preset']), 'expected': exp,
+                     'observed': A, 'names': names, 'behaviour': 'sbml_outputs'})
+    return {'transitions': 4, 'outcome': key_of([case, tol.rnd(A, 6)]),
+            'violations': viol}
+
+
 def w_pam(case):
     ns = case['n_samples']
     times = case['times']
@@ -697,7 +794,8 @@ def w_regimen(case):
 
 WORKERS = {'predictive': w_pred, 'population': w_poppred, 'posterior': w_posterior,
            'prior': w_prior, 'pam': w_pam, 'regimen': w_regimen,
-           'wrapped_regimen': _c10.w_wrapped_table,
+           'wrapped_regimen': _c10.w_wrapped_table, 'fixed_error': w_fixed_error,
+           'sbml_outputs': w_sbml_outputs,
            'prior_population': w_prior_pop, 'param_map': w_param_map,
            'reduced_source': w_reduced_source}
 
@@ -760,6 +858,16 @@ def build(tier, seed):
                                          'n_samples': ns, 'times': perms[3],
                                          'answers': list(ans), 'pad': pad,
                                          'pooled_sigma': pooled})
+    # one object asked for one individual after the other
+    for nc, nd in ((2, 3), (1, 2)):
+        for ind, prev in (('a', 'b'), ('b', 'a'), ('b', 'b')):
+            for ans in range(nc * nd):
+                for pooled in (False, True):
+                    post.append({'draw_first': False, 'n_chains': nc, 'n_draws': nd,
+                                 'inds': ['a', 'b'], 'individual': ind,
+                                 'n_samples': 1, 'times': perms[3],
+                                 'answers': [ans], 'pad': False,
+                                 'pooled_sigma': pooled, 'prev': prev})
     # individuals whose chains have different numbers of draws: every row of the
     # selected (longest) individual can be chosen
     for nc, nd in ((2, 3), (1, 3)):
@@ -772,6 +880,22 @@ def build(tier, seed):
     prior = [{'n_samples': ns, 'times': p, 'seed': sd, 'k': k}
              for k in (1, 2, 3) for ns in (1, 2, 3) for p in perms[:3]
              for sd in (3, 8)]
+    fv = {'q0': 2.4, 'Sigma base': 0.55, 'Sigma rel.': 0.35}
+    fixed_err = [{'steps': []}]
+    for r_ in (1, 2, 3):
+        for sub in itertools.combinations(list(fv), r_):
+            if r_ == 3:
+                continue
+            for order in itertools.permutations(sub):
+                fixed_err.append({'steps': [[[k_, fv[k_]] for k_ in order]]})
+                if r_ == 2:
+                    fixed_err.append({'steps': [[[order[0], fv[order[0]]]],
+                                                [[order[1], fv[order[1]]]]]})
+            # fixed, then re-fixed at another value / released again
+            fixed_err.append({'steps': [[[k_, fv[k_]] for k_ in sub],
+                                        [[sub[0], fv[sub[0]] * 0.5]]]})
+            fixed_err.append({'steps': [[[k_, fv[k_]] for k_ in sub],
+                                        [[sub[-1], None]]]})
     from . import c18 as _c18
     wrapped_regs = [c for part in _c10.build('quick', seed)['parts']
                     if part.name == 'wrapped_table' for c in part.cases]
@@ -823,6 +947,14 @@ def build(tier, seed):
                  'under the same script'),
             Part('pam', pam, w_pam, 'PAMPredictiveModel: all model assignments, '
                  'probabilities passed to choice'),
+            Part('fixed_error', fixed_err, w_fixed_error,
+                 'predictive model with every subset of (mechanistic, error) '
+                 'parameters fixed in one or two calls, re-fixed, released'),
+            Part('sbml_outputs', [{'order': list(o_), 'preset': p_}
+                                  for o_ in ((0, 1), (1, 0))
+                                  for p_ in (None, [0, 1], [1, 0], [0], [1])],
+                 w_sbml_outputs, 'two-output library model: outputs= in either '
+                 'order x outputs set on the model beforehand'),
             Part('regimen', regs, w_regimen, 'dose rows of sample tables'),
             Part('wrapped_regimen', wrapped_regs, _c10.w_wrapped_table,
                  'dose rows of the tables of population / prior / posterior / '
@@ -856,3 +988,10 @@ META = {
                   'base variate / categorical answer produces which value; the '
                   'distributions of the component samplers are decided in C06.',
 }
+META['level_text'] += (
+    ' Also: predictive models with every subset of (mechanistic, error) parameters '
+    'fixed / re-fixed / released; the two-output library model with outputs= in eit'
+    'her order; regimen tables of the wrapped predictive models (cases of C10); one'
+    ' posterior predictive object asked for several individuals in turn; posterior '
+    'datasets with individuals of different chain lengths; prior predictive models '
+    'with 1-3 outputs.')
